@@ -668,7 +668,54 @@ def r16_8(F, R):
         R.ok("R16.8", "update/BeginPage", "tail and top replaced on all %d paths" % n, loc, how="edt")
 
 
+def r16_9(F, R):
+    from ..dataflow import op_place
+    R.rule("R16.9", "strings have one encoding on both sides: the writer emits the UTF-8 bytes of a string (str::as_bytes) and the reader decodes a "
+                    "byte string as UTF-8 (the from_utf8 family); the reader never turns a single byte into a character (`u8 as char`, char::from(u8), "
+                    "char::from_u32 of a byte), which is Latin-1 decoding and returns a different string for every non-ASCII comment, font area or name")
+    n_dec = n_enc = 0
+    for fn in sorted(F.fns.values(), key=lambda f: f.name):
+        nm = strip_generics(fn.name)
+        if "::tests::" in nm:
+            continue
+        if "dvi::deserialize::" in nm:
+            k = 0
+            for bi, b in enumerate(fn.blocks):
+                if b.get("cleanup"):
+                    continue
+                for st in b["s"]:
+                    if st["k"] == "=" and st["rv"]["k"] == "cast" and not st["lhs"]["p"] and fn.local_ty(st["lhs"]["l"]) == "char":
+                        R.violation("R16.9", "%s/byte-to-char#%d" % (nm, k), "%s converts a number to a character with `as char`: a byte string is not decoded "
+                                    "as UTF-8, so a non-ASCII string written by the serializer is read back as a different string" % fn.name, fn.loc(st))
+                        k += 1
+                t = b["t"]
+                if t["k"] == "call":
+                    cn = strip_generics(callee_name(t) or "")
+                    g = strip_generics((t.get("callee") or {}).get("fn") or "")
+                    if cn.split("::")[-1].startswith("from_utf8") or g.split("::")[-1].startswith("from_utf8"):
+                        n_dec += 1
+                        R.ok("R16.9", "%s/decode#%d" % (nm, n_dec), "UTF-8 decoding (%s)" % cn.split("::")[-1], fn.loc(t), how="callee")
+                    a0 = op_place(t["args"][0]) if t.get("args") else None
+                    a0ty = fn.local_ty(a0["l"]) if a0 is not None and not a0["p"] else ""
+                    if (cn in ("<char as core::convert::From>::from", "core::char::convert::<impl core::convert::From for char>::from") or
+                            (cn.endswith("::from") and "char" in cn.split("::from")[0].split("::")[-1] and a0ty == "u8") or
+                            cn.endswith("char::from_u32") or cn.endswith("from_u32_unchecked") or cn.endswith("char::from_digit") or
+                            (cn.endswith("::into") and a0ty == "u8" and fn.local_ty(t["dest"]["l"]) == "char")):
+                        R.violation("R16.9", "%s/byte-to-char#%d" % (nm, k), "%s builds a character from a single number (%s): a byte string is not decoded as "
+                                    "UTF-8, so a non-ASCII string written by the serializer is read back as a different string" % (fn.name, cn), fn.loc(t))
+                        k += 1
+        if "dvi::serialize::" in nm:
+            for bi, t in fn.calls():
+                cn = strip_generics(callee_name(t) or "")
+                if cn.endswith("str>::as_bytes") or cn.endswith("::as_bytes") or cn.endswith("::into_bytes"):
+                    n_enc += 1
+                    R.ok("R16.9", "%s/encode#%d" % (nm, n_enc), "UTF-8 bytes of the string (%s)" % cn.split("::")[-1], fn.loc(t), how="callee")
+    R.floor("R16.9", "UTF-8 decoding sites in the reader", n_dec, 1)
+    R.floor("R16.9", "UTF-8 encoding sites in the writer", n_enc, 1)
+
+
 def run(F, R, tier):
+    r16_9(F, R)
     r16_1(F, R)
     r16_7(F, R)
     r16_8(F, R)
